@@ -615,4 +615,39 @@ theorem start_inv {D : Type} (fl : Flags) (hk : Hooks D) (a : StA D) (j : Nat) (
       · exact absurd htj (fun hh => hthr1 t ht hh)
       · rcases hc with ⟨-, hp, hts, hs⟩ | ⟨-, hp, hts, hs⟩ | ⟨-, hp, hts, hs⟩ <;> simp [hts] at ht <;> subst ht <;> simp [jobs_put, hp, kindOk]
 
+
+def nonControl : Cb → Bool
+  | .check _ _ => true
+  | .notifyCheck _ _ => true
+  | .waiterRun => true
+  | _ => false
+
+theorem count_nonControl (app : List Cb) (h : ∀ cb ∈ app, nonControl cb = true) (i : Nat) :
+    app.count (Cb.start i) = 0 ∧ app.count (Cb.wake i) = 0 ∧ app.count (Cb.resume i) = 0 ∧ app.count (Cb.register i) = 0 := by
+  refine ⟨?_, ?_, ?_, ?_⟩ <;> (rw [List.count_eq_zero]; intro hm; have := h _ hm; simp [nonControl] at this)
+
+theorem bg_misc (s s' : St) (app : List Cb) (hj : s'.jobs = s.jobs) (hr : s'.ready = s.ready ++ app)
+    (happ : ∀ cb ∈ app, nonControl cb = true) (ht : s'.threads = s.threads)
+    (hn : s'.n = s.n) (he : s'.eff = s.eff) (hg : s'.registry = s.registry) (hq : s'.regResult = s.regResult) : Bg s s' := by
+  constructor
+  · intro i
+    obtain ⟨c1, c2, c3, -⟩ := count_nonControl app happ i
+    simp [view, cStart, cRes, cW, cWake, cSleep, cThr, hj, hr, ht, List.count_append, c1, c2, c3]
+  all_goals first | assumption | skip
+  · exact ⟨app, hr, fun i => (count_nonControl app happ i).2.2.2⟩
+  · intro i; simp [hj]
+
+/-- outcome of a transition of job `j` as `inv_of_tr` needs it -/
+def Good (j : Nat) (s s' : St) (ad : Bool) : Prop :=
+  Tr j s s' ∧ LocV (view s' j) ad ∧ (∀ t ∈ s'.threads, t.2 = j → kindOk t.1 (s'.jobs j).pc = true)
+
+theorem pre_resume (s : St) (ad : Bool) (j : Nat) (hj : LocV (viewP (.resume j) s j) ad) :
+    pk (s.jobs j).pc = .thr ∧ cThr s j = 0 ∧ cStart s j = 0 ∧ cRes s j = 0 ∧ cWake s j = 0 ∧ (s.jobs j).sleeping = false ∧
+    ((s.jobs j).launches = 0 ∨ ((s.jobs j).launches = 1 ∧ launched (s.jobs j).pc = true)) ∧
+    ((s.jobs j).marker = true → (s.jobs j).launches = 0 ∧ pcMarker (s.jobs j).pc = true) ∧
+    (ad = true → (s.jobs j).launches = 0 ∧ pcAdopted (s.jobs j).pc = true) := by
+  simp only [viewP, LocV, CtlV, view, cW, cSleep] at hj
+  generalize (s.jobs j).pc = pc at *
+  cases pc <;> simp [pk, launched, pcMarker, pcAdopted] at hj ⊢ <;> grind
+
 end XpmVerif.Restart
